@@ -23,6 +23,52 @@ CHECKS = {
         note="Trusted: CPython's pure-Python unpickler as the reference VM; the typing discipline that disables ill-typed mutator "
         "transitions; bounded alphabet/depth.",
     ),
+    "C03": dict(
+        level="model_checking",
+        technique=E1 + "; terminal oracle: VM import/call event multiset included in the events of the decompiled program run against the same stubs",
+        text="Every program over a 29-symbol exec alphabet (3 resolving x 6 call-making opcodes, POP/POP_MARK/DUP/memo traffic) to depth 4/5, "
+        "a 15-symbol core one level deeper, every opcode class of pickletools in every position of length<=3 programs, and the object "
+        "corpus at protocols 0-5: the reference VM's import and call events (callee + argument snapshot at call time) must be a "
+        "sub-multiset of those of the decompiled source executed under the same stubs. The failure mode is an interaction of two "
+        "opcodes (call-maker x disposer), i.e. exactly what exhaustive short sequences cover.",
+        ref="§3/C03, §2/E1",
+        note="Trusted: pure-Python unpickler as reference; stub world (NEWOBJ rendered as a call, frozenset transparent); bounded alphabet/depth.",
+    ),
+    "C04": dict(
+        level="model_checking",
+        technique=E1 + "; terminal oracle: severity >= floor computed from the reference VM's event log and generator-fixed labels; plus an exhaustive template product",
+        text="Ground truth (what would be resolved / called) comes from executing each program on the reference VM with inert stubs and from "
+        "labels fixed in vp/vocab.py, never from fickling. Explored: all programs over core+labelled-global alphabets to depth 4/5 (2-3 "
+        "vocabulary groups) and the full product vocabulary(29) x resolve form(4) x call form(8) x disposal(11) x prefix(5).",
+        ref="§3/C04",
+        note="Trusted: the label table; the floor table transcribed from the property statement; one-directional comparison.",
+    ),
+    "C05": dict(
+        level="model_checking",
+        technique=E1 + "; terminal oracle: canonical value of exec(decompiled) under stubs == canonical value built by the reference VM; plus plain-data round trip",
+        text="All programs over a 27-symbol data alphabet to depth 4 (quick) / 6 (thorough, ~12M transitions), a 14-symbol aliasing alphabet two "
+        "levels deeper, data+object alphabet, full opcode-class pass, object corpus, and ~2-5k plain values x protocols 0-5 x framed/unframed "
+        "whose decompiled source must exec to an equal object of the same type.",
+        ref="§3/C05",
+        note="Trusted: reference VM; canonicalisation (dict/set order-insensitive, floats by repr); cyclic values excluded.",
+    ),
+    "C13": dict(
+        level="model_checking",
+        technique=E2 + " (here: every sequence of the six read-only queries of length 3/4 on every E1 terminal program), plus digest tables from child processes under different PYTHONHASHSEED",
+        text="For every terminal program of a 33-symbol alphabet to depth 3/4 (and a narrow alphabet one deeper) and a corpus subset, every "
+        "history of {unparse, check_safety, trace, summaries, dumps, reparse} of the stated length is replayed on a fresh parse and every "
+        "answer compared with a fresh object's first answer; the per-program answer digests are recomputed in 3 processes with different hash seeds.",
+        ref="§3/C13",
+        note="Trusted: finite set of hash seeds; findings compared as a set.",
+    ),
+    "C19": dict(
+        level="model_checking",
+        technique=E1 + "; terminal oracle: check_safety returns well-formed JSON-serialisable findings and the checked loader's error carries the same report; plus an exhaustive module x name x opcode x PROTO product",
+        text="All decompilable programs over core + special-cased globals to depth 4/5, and the product 24 modules x 17 attribute names (every "
+        "name a rule special-cases) x 2 resolving opcodes x 7 uses x 5 PROTO placements (~28k programs).",
+        ref="§3/C19",
+        note="Trusted: pickle.loads replaced by a recorder during fickling.load so nothing generated is really unpickled.",
+    ),
 }
 
 NOT_YET = {}
